@@ -133,7 +133,7 @@ def gen_single_index(g, maxn):
             g.add("ix", "c05_ix_single", "p_I", "packed", [n], [("I", i)], "single", 0)
 
 
-def gen_single_view(g, maxn):
+def gen_single_view(g, maxn, maxn_dyn):
     for n in range(1, maxn + 1):
         for code in M.RANGE_CODES:
             for (s, e, st) in M.axis_grid(code, n):
@@ -142,9 +142,10 @@ def gen_single_view(g, maxn):
             for (s, e, st) in M.axis_grid(code, n):
                 part = [("R", s, e, st)]
                 g.add("v", "c05_v_single", "v_%s" % code, "view_packed:index_array", [n], part, "single")
-                g.add("v", "c05_v_dyn", "d_%s" % code, "view_list:index_array", [n], part, "single", dyn=True)
+                if n <= maxn_dyn:
+                    g.add("v", "c05_v_dyn", "d_%s" % code, "view_list:index_array", [n], part, "single", dyn=True)
         for op in V_DYN:
-            if op in ("d_a3", "d_a2"):
+            if op in ("d_a3", "d_a2") or n > maxn_dyn:
                 continue
             code = dyn_code(op)
             fam = "view_list" if op.startswith("d_") else "view_either"
@@ -360,6 +361,15 @@ def eval_view(c, toks):
     t = Tok(toks)
     exp = M.expected_view(c.shape, c.parts)
     eshape = list(exp.shape)
+    if toks and toks[0] == "OOB":
+        t.s()
+        dshape = t.vec()
+        didx = t.vec()
+        src = t.vec()
+        if dshape != eshape:
+            return False, "shape", "result shape %s expected %s (not evaluated: result index %s maps to source index %s outside shape %s)" % (
+                dshape, eshape, didx, src, c.shape)
+        return False, "oob", "result index %s maps to source index %s outside the source shape %s" % (didx, src, c.shape)
     t.expect("M")
     t.i()
     bad_shape = None
@@ -405,6 +415,8 @@ def eval_view(c, toks):
 
 
 def eval_mutable(c, toks):
+    if toks and toks[0] == "OOB":
+        return eval_view(c, toks)
     t = Tok(toks)
     t.expect("SH")
     sh = t.vec()
@@ -452,7 +464,7 @@ def run(ctx):
     g = Gen()
     maxn = 6
     gen_single_index(g, maxn)
-    gen_single_view(g, maxn)
+    gen_single_view(g, maxn, 4 if quick else maxn)
     if quick:
         gen_multi_sampled(g, rng, per_ix=60, per_v=40)
         gen_dyn_multi_sampled(g, rng, per_ix=40, per_v=60)
